@@ -2,65 +2,17 @@ package main
 
 import (
 	"fmt"
+	"os"
+	"regexp"
 
-	"github.com/coregx/coregex/dfa/lazy"
-	"github.com/coregx/coregex/nfa"
-	"verif/gen"
+	"github.com/coregx/coregex"
 )
 
-type call struct {
-	h  []byte
-	at int
-	op byte
-}
-
 func main() {
-	c := gen.D(7201)
-	p := c.Pattern
-	n, _ := nfa.NewDefaultCompiler().Compile(p)
-	cfg := lazy.DefaultConfig()
-	cfg.UsePrefilter = false
-	cfg.BreakAtMatch = true
-	d, _ := lazy.CompileWithConfig(n, cfg)
-	target := c.Haystacks[4]
-	var seq []call
-	for _, h := range c.Haystacks[:5] {
-		var offs []int
-		for a := 0; a <= len(h) && a <= 12; a++ {
-			offs = append(offs, a)
-		}
-		if len(h) > 12 {
-			offs = append(offs, len(h)-1, len(h))
-		}
-		for _, at := range offs {
-			seq = append(seq, call{h, at, 'S'}, call{h, at, 'A'})
-		}
-	}
-	bad := func(s []call) bool {
-		cache := d.NewCache()
-		for _, cl := range s {
-			if cl.op == 'S' {
-				d.SearchAt(cache, cl.h, cl.at)
-			} else {
-				d.SearchAtAnchored(cache, cl.h, cl.at)
-			}
-		}
-		return d.SearchAt(cache, target, 7) != 15
-	}
-	fmt.Println("full sequence bad:", bad(seq), len(seq))
-	// greedy delta debugging
-	for changed := true; changed; {
-		changed = false
-		for i := 0; i < len(seq); i++ {
-			t := append(append([]call{}, seq[:i]...), seq[i+1:]...)
-			if bad(t) {
-				seq = t
-				changed = true
-				i--
-			}
-		}
-	}
-	for _, cl := range seq {
-		fmt.Printf("%c %q at=%d\n", cl.op, cl.h, cl.at)
+	p := os.Args[1]
+	a, b := coregex.MustCompile(p), regexp.MustCompile(p)
+	for _, h := range os.Args[2:] {
+		fmt.Println("coregex", a.MatchString(h), a.FindStringSubmatchIndex(h), a.FindAllStringIndex(h, -1))
+		fmt.Println("stdlib ", b.MatchString(h), b.FindStringSubmatchIndex(h), b.FindAllStringIndex(h, -1))
 	}
 }
